@@ -195,3 +195,19 @@ Definition midnight_regular (z : zone) (X : Z) : bool := wall_regular z (X * DAY
 Definition z_midnight (z : zone) (X : Z) : Z := resolve z (X * DAY_S) * NS.
 (* the instant at which the wall clock reads second c of local day X *)
 Definition z_wall_inst (z : zone) (X c : Z) : Z := resolve z (X * DAY_S + c) * NS.
+
+(* ------------------------------------------------------------------ example tables (the transitions of 2023..2025 as
+   package time reports them; used by the Examples of Properties.v) *)
+Definition ny_table : zone :=        (* America/New_York: EST -05:00 / EDT -04:00, shifts at 02:00 local *)
+  {| z_first := -18000;
+     z_trans := [(1678604400, -14400); (1699164000, -18000);     (* 2023-03-12 07:00 UTC, 2023-11-05 06:00 UTC *)
+                 (1710054000, -14400); (1730613600, -18000);     (* 2024-03-10 07:00 UTC, 2024-11-03 06:00 UTC *)
+                 (1741503600, -14400); (1762063200, -18000)] |}. (* 2025-03-09 07:00 UTC, 2025-11-02 06:00 UTC *)
+Definition berlin_table : zone :=    (* Europe/Berlin: CET +01:00 / CEST +02:00, shifts at 01:00 UTC *)
+  {| z_first := 3600;
+     z_trans := [(1679792400, 7200); (1698541200, 3600);         (* 2023-03-26, 2023-10-29 01:00 UTC *)
+                 (1711846800, 7200); (1729990800, 3600);         (* 2024-03-31, 2024-10-27 01:00 UTC *)
+                 (1743296400, 7200); (1761440400, 3600)] |}.     (* 2025-03-30, 2025-10-26 01:00 UTC *)
+Definition havana_table : zone :=    (* America/Havana: CST -05:00 / CDT -04:00, DST starts at 00:00 local: no midnight that day *)
+  {| z_first := -18000;
+     z_trans := [(1710046800, -14400); (1730610000, -18000)] |}. (* 2024-03-10 05:00 UTC, 2024-11-03 05:00 UTC *)
